@@ -28,13 +28,12 @@ ASSUMPTIONS = [
     "positive off the diagonal (the graph-format layer in front of them is property C17)",
     "np.random.permutation(n) returns a permutation of range(n) and np.random.choice(m) a value in range(m) "
     "(checked on every recorded draw); the theorems hold for every such draw",
-    "len(K)*diam_X is evaluated in the matrix dtype (int8 for diameters <= 127, wrapping modulo 256); the theorems hold for "
-    "every value of that product, the correspondence uses the dtype actually passed",
+    "the code's integer arithmetic is exact (no fixed-width wrap-around): true of the repaired code, which converts the int8 "
+    "scalars diam_X, max_d, d to Python ints; the theorems hold for every value of the sort-key product, so they also cover "
+    "a wrapped product, but not a wrapped index computation in the feasibility test",
     "mapping_sample_size_order only determines how many permutations are drawn (>= 1 for finite orders); the theorems "
     "hold for every non-empty list of permutations (an order whose float sample size is 0 raises StopIteration in code and model alike; "
     "non-finite orders fail in NumPy's int conversion, outside the model)",
-    "sizes: the theorems are for all sizes; the real code under NumPy 2 raises OverflowError for >= 128 vertices with diameter <= 127 "
-    "(Python int * np.int8 scalar) before any bound is returned - recorded by the large-graph probe, see evidence key large_graph_probe",
 ]
 TRUSTED = ["NumPy semantics of argmin (first minimum), np.unique(axis=0), np.delete, masked sums and integer dtype "
            "promotion, as transcribed in Model/MGH.lean and compared on every run"]
@@ -122,41 +121,44 @@ def gen_pair(ctx, nmax):
     return k1 + "/" + k2, A, B, False
 
 
+def gen_large_pair(ctx, cheap=False, lo=128, hi=200):
+    """graphs with lo..hi vertices.  128..200 (int8 matrices up to diameter 127, int16 beyond) are the sizes at which the
+    unrepaired `len(K) * diam_X` raised; 66..127 with diameter >= 65 are the sizes at which its int8 index arithmetic
+    `i + (d - 1)` wrapped silently (unsound lower bounds).  cheap=True keeps the lower-bound loop short."""
+    r = ctx.rng
+
+    def broom(n):          # a path on min(n,128) vertices (diameter 127 for n >= 128) with extra leaves at middle vertices
+        L = min(n, 128) - (0 if n >= 128 else r.randint(0, 8))
+        return adj_from_edges(n, [(i, i + 1) for i in range(L - 1)] + [(r.randint(L // 3, 2 * L // 3), j) for j in range(L, n)])
+
+    def one(kinds):
+        k = r.choice(kinds)
+        n = r.randint(lo, hi)
+        if k == "path128":
+            return k, gen_graph(r, 128 if hi >= 128 else hi, "path")[1]
+        if k == "broom":
+            return k, broom(n)
+        return k, gen_graph(r, n, k)[1]
+    if cheap:
+        k1, A = one(["star", "path128", "clique", "bip"])
+        if r.random() < 0.4:
+            return k1 + "~iso", A, relabel(r, A), True
+        k2, B = one(["star", "clique", "bip", "lolli"])
+        return k1 + "/" + k2, A, relabel(r, B), False
+    k1, A = one(["path128", "path", "star", "cycle", "broom", "tree", "gnp", "lolli", "grid"])
+    t = r.random()
+    if t < 0.3:
+        return k1 + "~iso", A, relabel(r, A), True
+    if t < 0.5:                                   # equal size, different shape
+        k2 = r.choice(["path", "star", "cycle", "tree", "gnp"])
+        return k1 + "/" + k2, A, relabel(r, gen_graph(r, len(A), k2)[1]), False
+    k2, B = one(["path128", "path", "star", "cycle", "broom", "tree", "gnp"])
+    return k1 + "/" + k2, A, relabel(r, B), False
+
+
 def metric(A, dtype=None):
     D = G().make_distance_matrix_from_adjacency_matrix(np.array(A))
     return D if dtype is None else D.astype(dtype)
-
-
-KEY_MODE = {"mode": "dtype"}     # how `len(K) * diam_X` is evaluated by the tree under test (see detect_key_semantics)
-
-
-def bits(D):
-    """width the model uses for the sort-key product: the dtype's, or 64 (= exact) when the code multiplies Python ints"""
-    return 64 if KEY_MODE["mode"] == "exact" else D.dtype.itemsize * 8
-
-
-def detect_key_semantics(ctx):
-    """The product len(K)*diam_X is `Python int * np.int8 scalar` in the unchanged code (wraps modulo 256 under NumPy 2); a
-    repaired tree may compute it exactly.  The theorems hold for every value of the product, so the correspondence only has
-    to use the semantics the tree has: probe it once on the 14-vertex path (14*13 = 182 > 127), d = 2, where the two
-    semantics keep 4 resp. 7 rows."""
-    g = G()
-    A = adj_from_edges(14, [(i, i + 1) for i in range(13)])
-    D = metric(A)
-    with np.errstate(all="ignore"), warnings.catch_warnings():
-        warnings.simplefilter("ignore")
-        st, K, _ = call(g.find_largest_size_bounded_curvature, D, D.max(), D.dtype.type(2))
-    a8, a64 = ask(["mgh.curv %s %d 2" % (enc(L(D)), D.dtype.itemsize * 8), "mgh.curv %s 64 2" % enc(L(D))])
-    mode = "dtype"
-    if st == "ok":
-        for name, a in (("dtype", a8), ("exact", a64)):
-            idx = [int(x) for x in a]
-            sub = np.asarray(D)[np.ix_(idx, idx)]
-            if sub.shape == K.shape and (sub == K).all():
-                mode = name
-                break
-    KEY_MODE["mode"] = mode
-    ctx.extra["key_product_semantics"] = {"mode": mode, "probe": "P14, d=2", "rows_kept_by_code": (len(K) if st == "ok" else K)}
 
 
 def L(D):
@@ -286,15 +288,27 @@ def bracket_on_real_code(A, B, order, np_seed, mgh2=None):
     """the property predicate on the real public entry point; returns (ok, details)"""
     g = G()
     np.random.seed(np_seed)
-    st, v, _ = call(g.gromov_hausdorff, np.array(A), np.array(B), mapping_sample_size_order=np.array(order))
+    with np.errstate(all="ignore"):
+        st, v, _ = call(g.gromov_hausdorff, np.array(A), np.array(B), mapping_sample_size_order=np.array(order))
     if st == "err":
         return False, {"error": v}
     lb, ub = float(v[0]), float(v[1])
     DX, DY = metric(A), metric(B)
+    if mgh2 is None and max(len(DX), len(DY)) > 6:
+        # no exhaustive oracle at this size: what remains checkable is that bounds are returned, half-integral and ordered
+        ok = half_integral(lb) and half_integral(ub) and lb <= ub
+        return ok, {"lb": lb, "ub": ub, "mGH": "not computed (more than 6 vertices)"}
     if mgh2 is None:
         mgh2 = mgh2_brute(DX, DY)
     ok = half_integral(lb) and half_integral(ub) and 2 * lb <= mgh2 <= 2 * ub
     return ok, {"lb": lb, "ub": ub, "mGH": mgh2 / 2.0}
+
+
+def code_raised(ctx, fn, kind, A, B, iso, order=(0.0, 0.0)):
+    """a routine of the real code raised on BFS metrics of connected graphs: no bounds are returned, the property fails here"""
+    ctx.violation("%s raised %s on two connected graphs with %d and %d vertices: no bounds are returned" % (fn, kind, len(A), len(B)),
+                  {"AG": np.asarray(A).tolist(), "AH": np.asarray(B).tolist(), "order": list(order), "np_seed": 0, "iso": bool(iso),
+                   "raised_in": fn}, found_input=True)
 
 
 def search_failing_input(ctx, what, case, corr, A=None, B=None, order=None, extra=None):
@@ -312,6 +326,17 @@ def search_failing_input(ctx, what, case, corr, A=None, B=None, order=None, extr
         if r.random() < 0.2:
             Y = relabel(r, X)
         cands.append((X, Y, r.choice(ORDERS), r.randrange(2 ** 31)))
+    big = []
+    for k, nn in (("star", 128), ("path", 128), ("cycle", 150), ("star", 200)):
+        X = gen_graph(r, nn, k)[1]
+        big.append((X, relabel(r, X), (0.0, 0.0), r.randrange(2 ** 31)))
+    for X, Y, o, s in big:                          # isomorphic by construction: 2*mGH = 0 without any search
+        ok, det = bracket_on_real_code(X, Y, o, s, mgh2=0)
+        if not (ok and det.get("lb") == 0.0):
+            ctx.violation("%s; the property fails on the real code for two isomorphic %d-vertex graphs: %r" % (what, len(X), det),
+                          {"AG": X.tolist(), "AH": Y.tolist(), "order": list(o), "np_seed": s, "iso": True}, found_input=True,
+                          correspondence=corr, detail=det)
+            return True
     for X, Y, o, s in cands:
         ok, det = bracket_on_real_code(X, Y, o, s)
         if ok and is_iso_pair(X, Y):
@@ -366,7 +391,6 @@ def nat(x):
 def run(ctx):
     g = G()
     ctx.extra["source_digest"] = common.source_digest(SRC, ANCHORED)
-    detect_key_semantics(ctx)
     nmax = ctx.n(9, 40)
     b = Batch()
     cov = common.LineCov([SRC])
@@ -380,11 +404,17 @@ def run(ctx):
               ("P2/C5", adj_from_edges(2, [(0, 1)]), C5, False), ("C5/C5", C5, relabel(ctx.rng, C5), True),
               ("P20/S20", P20, S20, False), ("S20/P20", S20, P20, False)]
     pairs = list(corpus)
-    npairs = ctx.n(420, 4000)
+    npairs = ctx.n(400, 2500)
     for i in range(npairs):
         big = ctx.thorough and i % 3 == 0
         pairs.append(gen_pair(ctx, nmax if (big or not ctx.thorough) else 12))
 
+    P100 = gen_graph(ctx.rng, 100, "path")[1]
+    pairs.append(("path~iso", P100, relabel(ctx.rng, P100), True))          # diameter 99: index arithmetic beyond int8
+    for i in range(ctx.n(4, 22)):
+        pairs.append(gen_large_pair(ctx, cheap=(not ctx.thorough) or i % 2 == 0))
+    for i in range(ctx.n(1, 22)):
+        pairs.append(gen_large_pair(ctx, cheap=False, lo=66, hi=127))
     with cov:
         for idx, (kind, A, B, iso) in enumerate(pairs[:60]):
             one_pair(ctx, b, kind, A, B, iso)
@@ -402,10 +432,33 @@ def run(ctx):
 
 
 def one_pair(ctx, b, kind, A, B, iso):
+    """all correspondence operations on one pair; an exception of the real code on these valid inputs is a failing input"""
+    try:
+        _one_pair(ctx, b, kind, A, B, iso)
+    except common.HarnessError:
+        raise
+    except (ArithmeticError, IndexError, ValueError, TypeError, AttributeError, StopIteration) as e:
+        import traceback
+        tb = traceback.extract_tb(e.__traceback__)
+        inside = [f for f in tb if f.filename.startswith(common.REPO)]
+        if not inside:
+            raise
+        code_raised(ctx, "%s (line %d)" % (inside[-1].name, inside[-1].lineno), type(e).__name__, A, B, iso)
+
+
+def _one_pair(ctx, b, kind, A, B, iso):
     g, r = G(), ctx.rng
-    dt = r.choice([None, None, None, np.int16, np.int64])
+    large = max(len(A), len(B)) > 60
+    dt = None if large else r.choice([None, None, None, np.int16, np.int64])
     DX, DY = metric(A, dt), metric(B, dt)
     n, m = len(DX), len(DY)
+    if large:
+        ctx.count("large_pairs(>=128 vertices)" if max(n, m) >= 128 else "mid_pairs(66..127 vertices)")
+        if max(int(DX.max()), int(DY.max())) >= 65:
+            ctx.count("large:diameter>=65")
+        ctx.count("large:dtype=%s,%s" % (DX.dtype, DY.dtype))
+        if int(DX.max()) == 127 or int(DY.max()) == 127:
+            ctx.count("large:diameter_exactly_127")
     nontriv = n >= 3 and m >= 3 and not (int(DX.max()) <= 1 and int(DY.max()) <= 1)
     ctx.count("kind:" + kind.replace("~iso", "").split("/")[0]); ctx.count("size:%d" % max(n, m))
     ctx.count("equal_size" if n == m else "unequal_size")
@@ -418,7 +471,7 @@ def one_pair(ctx, b, kind, A, B, iso):
     with np.errstate(all="ignore"):
         st, lb, _ = call(g.find_lb, DX, DY)
     if st == "err":
-        raise common.HarnessError("find_lb raised %s on %r" % (lb, base))
+        return code_raised(ctx, "find_lb", lb, A, B, iso)
     lb = int(lb)
 
     def c_lb(ans, lb=lb):
@@ -430,7 +483,7 @@ def one_pair(ctx, b, kind, A, B, iso):
         if nat(ans) != lb:
             search_failing_input(ctx, "find_lb: code=%s model=%s" % (lb, ans), dict(base, op="find_lb", code=lb, model=str(ans)),
                                  "mgh.lb", A, B)
-    b.add("mgh.lb %s %s %d %d" % (eDX, eDY, bits(DX), bits(DY)), c_lb)
+    b.add("mgh.lb %s %s" % (eDX, eDY), c_lb)
 
     # --- the pieces of find_lb, on one d
     diam = int(DX.max())
@@ -441,14 +494,15 @@ def one_pair(ctx, b, kind, A, B, iso):
 
         def c_curv(ans, K=K, d=d, DX=DX):
             ctx.case(dict(base, op="curvature", d=d), nontriv, sample_every=0)
-            idx = [int(x) for x in ans]
-            sub = np.asarray(DX)[np.ix_(idx, idx)] if idx else np.zeros((0, 0), dtype=int)
-            if sub.shape != K.shape or not (sub == K).all():
-                search_failing_input(ctx, "find_largest_size_bounded_curvature(d=%d): code keeps %s, model keeps rows %s"
-                                     % (d, L(K), idx), dict(base, op="curvature", d=d), "mgh.curv", A, B)
-        b.add("mgh.curv %s %d %d" % (eDX, bits(DX), d), c_curv)
+            Km = [[int(x) for x in row] for row in ans[0]]
+            idx = [int(x) for x in ans[1]]
+            sub = np.asarray(DX)[np.ix_(idx, idx)].astype(int).tolist() if idx else []
+            if Km != L(K) or sub != Km:
+                search_failing_input(ctx, "find_largest_size_bounded_curvature(d=%d): code returns %s, model returns %s (rows %s)"
+                                     % (d, L(K), Km, idx), dict(base, op="curvature", d=d), "mgh.curv", A, B)
+        b.add("mgh.curv %s %d" % (eDX, d), c_curv)
         maxd = max(int(DX.max()), int(DY.max()))
-        dists = g.represent_distance_matrix_rows_as_distributions(DX, DX.dtype.type(maxd))
+        dists = g.represent_distance_matrix_rows_as_distributions(DX, max(DX.max(), DY.max()))
 
         def c_dists(ans, dists=dists):
             ctx.case(dict(base, op="distributions"), nontriv, sample_every=0)
@@ -464,7 +518,7 @@ def one_pair(ctx, b, kind, A, B, iso):
                 search_failing_input(ctx, "find_unique_max_distributions: code=%s model=%s" % (L(um), ans),
                                      dict(base, op="unique_max"), "mgh.umax", A, B)
         b.add("mgh.umax %s" % enc(L(dists)), c_um)
-        dY = g.represent_distance_matrix_rows_as_distributions(DY, DY.dtype.type(maxd))
+        dY = g.represent_distance_matrix_rows_as_distributions(DY, max(DX.max(), DY.max()))
         v, u = um[r.randrange(len(um))], dY[r.randrange(len(dY))]
         fe = bool(g.check_assignment_feasibility(v, u, d))
 
@@ -476,7 +530,7 @@ def one_pair(ctx, b, kind, A, B, iso):
         b.add("mgh.feas %s %s %d" % (enc(L(v)), enc(L(u)), d), c_fe)
 
     # --- construct_mapping
-    for _ in range(2):
+    for _ in range(1 if large else 2):
         dr = new_draws(ctx)
         with dr:
             pi = dr._perm(n)
@@ -502,11 +556,16 @@ def one_pair(ctx, b, kind, A, B, iso):
     order = r.choice(ORDERS)
     if max(n, m) > 12 and order in ((2.0, 0.0), (1.5, 0.5), (1.0, 1.0)):
         order = (0.5, 1.0)
+    if large:
+        order = r.choice([(0.0, 0.0), (-1.0, -1.0), (0.0, 0.5)])
     ctx.count("order:%s" % (order,))
     goal = r.choice([0, 0, lb, r.randint(0, max(1, diam))])
     dr = new_draws(ctx)
     with dr, np.errstate(all="ignore"):
-        ub1 = int(g.find_ub_of_min_distortion(DX, DY, mapping_sample_size_order=np.array(order), goal_distortion=goal))
+        st, ub1, _ = call(g.find_ub_of_min_distortion, DX, DY, mapping_sample_size_order=np.array(order), goal_distortion=goal)
+    if st == "err":
+        return code_raised(ctx, "find_ub_of_min_distortion", ub1, A, B, iso, order)
+    ub1 = int(ub1)
     check_draws(ctx, dr, base)
     c0 = dr.calls[0]
 
@@ -531,7 +590,7 @@ def one_pair(ctx, b, kind, A, B, iso):
         else:
             st, v, _ = call(g.gromov_hausdorff, np.array(A), np.array(B), mapping_sample_size_order=np.array(order))
     if st == "err":
-        raise common.HarnessError("upper-bound entry point raised %s on %r" % (v, base))
+        return code_raised(ctx, "find_ub/estimate/gromov_hausdorff", v, A, B, iso, order)
     check_draws(ctx, dr, base)
     if len(dr.calls) != 2:
         raise common.HarnessError("expected two find_ub_of_min_distortion calls, saw %d" % len(dr.calls))
@@ -550,10 +609,10 @@ def one_pair(ctx, b, kind, A, B, iso):
     else:
         if which >= 0.7:
             # the public entry point builds its own (int8) matrices
-            eX, eY, bx, by = enc(L(metric(A))), enc(L(metric(B))), bits(metric(A)), bits(metric(B))
+            eX, eY = enc(L(metric(A))), enc(L(metric(B)))
             opname = "gromov_hausdorff"
         else:
-            eX, eY, bx, by = eDX, eDY, bits(DX), bits(DY)
+            eX, eY = eDX, eDY
             opname = "estimate"
         lo, hi = float(v[0]), float(v[1])
         ctx.test("half_integral(real code)", half_integral(lo) and half_integral(hi))
@@ -568,7 +627,7 @@ def one_pair(ctx, b, kind, A, B, iso):
             if not good:
                 search_failing_input(ctx, "%s(order=%s): code=(%s,%s) model(doubled)=%s" % (opname, order, lo, hi, ans),
                                      dict(base, op=opname, order=list(order)), "mgh.est", A, B, order)
-        b.add("mgh.est %s %s %d %d %s" % (eX, eY, bx, by, args), c_est)
+        b.add("mgh.est %s %s %s" % (eX, eY, args), c_est)
     if len(b.lines) > 4000:
         b.flush(ctx)
 
@@ -801,7 +860,7 @@ def replay(ctx, rep):
     c = rep["case"]
     if "AG" in c and "np_seed" in c:
         A, B = np.array(c["AG"]), np.array(c["AH"])
-        ok, det = bracket_on_real_code(A, B, tuple(c["order"]), c["np_seed"])
+        ok, det = bracket_on_real_code(A, B, tuple(c["order"]), c["np_seed"], mgh2=0 if (c.get("iso") and len(A) > 6) else None)
         if ok and (c.get("iso") or is_iso_pair(A, B)):
             ok = det["lb"] == 0.0
         print("gromov_hausdorff(AG, AH, mapping_sample_size_order=%s) after np.random.seed(%s): %r" % (c["order"], c["np_seed"], det))
